@@ -1,6 +1,7 @@
 package readline
 
 import (
+	"github.com/reeflective/readline/internal/history"
 	"sort"
 
 	"github.com/reeflective/readline/internal/core"
@@ -131,7 +132,7 @@ func zzSameRunes(a, b []rune) bool {
 // binding, runs inside the real Readline loop. Asserted at every later input wait: the
 // C06 invariants; at the final wait, buffer purity for commands listed as movements.
 //
-// params: mode, cmd, n, arg, prefix (keys typed before: local context), pure (1: assert
+// params: mode, cmd, n, arg, hist (1: a non-empty history), prefix (keys typed before: local context), pure (1: assert
 // the buffer is unchanged), argbyte (1: the command reads a key, supply a symbolic one).
 func ZZ_Step() {
 	mode := zzverif.Param("mode")
@@ -166,6 +167,15 @@ func ZZ_Step() {
 				rl.cursor.CheckCommand()
 			}
 			before = append([]rune(nil), (*rl.line)...)
+			if zzverif.Param("hist") == "1" {
+				// a history (normally empty after start-up) that holds a line extending the
+				// buffer, a line equal to it, and an unrelated one
+				src := history.NewInMemoryHistory()
+				src.Write("zz unrelated")
+				src.Write(string(buf))
+				src.Write(string(buf) + "x yz w")
+				rl.History.Add("zzhist", src)
+			}
 			keys := zzKeysFor(rl, mode, cmd)
 			zzverif.Assume(keys != "")
 			// wrap the command to know whether a wait happens inside it
